@@ -72,6 +72,125 @@ def explore(chk, docs, cap, maxlines, tree, timeout=3000):
     return r, n
 
 
+# -- whole texts: long, deeply nested, beyond the line bound of the feed machine -------------------
+def compare_deep(ws, sch, rec, item, emit):
+    from .. import scenario
+    want = emit["o"]
+    got, _ = scenario.run_real(ws, sch, rec, item)
+    why = loadgen.compare_outcome(want, got, check_tree=_MODE["tree"])
+    if why is None:
+        text = "".join(str(l) + "\n" for l in item["files"][item["main"]])
+        got, _ = loadgen.load_text_reused(sch, text, rec=rec)
+        why = loadgen.compare_outcome(want, got, check_tree=_MODE["tree"])
+        if why is not None:
+            why += "-through-a-reused-loader"
+    if why is None:
+        return None
+    return {"clause": "deep: " + why, "observed": got, "class": {"clause": why}}
+
+
+def stress_texts(rng, rec, gen_text):
+    """Texts built around one conforming text: the things only several lines deep inside nested sections
+    can show (an inner section's bookkeeping meeting the outer one's)."""
+    from .. import textgen
+    L = textgen.Line
+    out = []
+    lines = list(gen_text)
+    opens = [i for i, l in enumerate(lines) if getattr(l, "info", None) and l.info.get("role") == "open"]
+    closes = [i for i, l in enumerate(lines) if getattr(l, "info", None) and l.info.get("role") == "close"]
+    keys = [i for i, l in enumerate(lines) if getattr(l, "info", None) and l.info.get("role") == "key"]
+    if opens:
+        # a whole section (header .. closer) once more right after itself: name reuse / a single slot filled twice,
+        # revealed only when the copy closes
+        i = rng.choice(opens)
+        depth = 0
+        j = i
+        while j < len(lines):
+            r = lines[j].info.get("role") if getattr(lines[j], "info", None) else None
+            if r == "open":
+                depth += 1
+            elif r == "close":
+                depth -= 1
+                if depth == 0:
+                    break
+            j += 1
+        if j < len(lines):
+            block = lines[i:j + 1]
+            out.append(lines[:j + 1] + block + lines[j + 1:])
+            # ... and the copy under another name (legal for multisections, a second instance for single slots)
+            hdr = str(block[0])
+            if " " in hdr.strip()[1:-1]:
+                renamed = L(hdr.rstrip()[:-1] + "x>", **block[0].info)
+                out.append(lines[:j + 1] + [renamed] + block[1:] + lines[j + 1:])
+            # the section emptied of its content: required items revealed at the closer
+            out.append(lines[:i + 1] + lines[j:])
+            # the body moved out of the section into its container
+            out.append(lines[:i] + lines[i + 1:j] + lines[j + 1:] + [lines[i], lines[j]])
+    if keys:
+        # a key line moved to the very end of the text (top level) and to the very beginning
+        i = rng.choice(keys)
+        out.append(lines[:i] + lines[i + 1:] + [L(str(lines[i]).strip(), **lines[i].info)])
+        out.append([L(str(lines[i]).strip(), **lines[i].info)] + lines[:i] + lines[i + 1:])
+        # the same key three times in a row (the third item of a kind)
+        out.append(lines[:i + 1] + [lines[i], lines[i]] + lines[i + 1:])
+    if closes:
+        # a closer dropped / doubled deep inside
+        i = rng.choice(closes)
+        out.append(lines[:i] + lines[i + 1:])
+        out.append(lines[:i + 1] + [lines[i]] + lines[i + 1:])
+    if len(opens) >= 2:
+        # two closers exchanged (crossing sections)
+        a, b = sorted(rng.sample(closes, 2)) if len(closes) >= 2 else (None, None)
+        if a is not None and str(lines[a]).strip() != str(lines[b]).strip():
+            sw = list(lines)
+            sw[a], sw[b] = sw[b], sw[a]
+            out.append(sw)
+    return out
+
+
+def deep(chk, docs, ntext, tree, maxdepth=4, timeout=3000, compare=None):
+    """Random whole texts (conforming generator, structural stress, line-level damage) for every schema of
+    the family: TLC runs the scenario machine ZLoadS on each with AcceptIffConforms2 / TreeIsValueTree2 as
+    invariants; every scenario is executed on the code (fresh loader and long-lived loader)."""
+    from .. import scenario, textgen
+    _MODE["tree"] = tree
+    rng = random.Random(chk.seed * 6151 + (2 if tree else 1))
+    sc = scenario.Scenarios(docs)
+    for sid, rec in enumerate(sc.recs):
+        vocab = schemas.vocabulary(rec, 40)
+        for t in range(ntext):
+            base = textgen.Gen(rng, rec, maxdepth=maxdepth).text()
+            cands = [base]
+            if t % 3 == 0:
+                cands += stress_texts(rng, rec, base)
+            if t % 2 == 1:
+                cands.append(textgen.damage(rng, base, vocab, rng.choice([1, 1, 2, 3])))
+            for lines in cands:
+                sc.add(sid, {"d/main.conf": lines}, meta={"nlines": len(lines)})
+    outs = sc.run_spec(chk, invariants=["AcceptIffConforms2", "TreeIsValueTree2"], timeout=timeout)
+    acc = 0
+    depths = {}
+    for it, o in zip(sc.items, outs):
+        lines = it["files"]["d/main.conf"]
+        d = mx = 0
+        for l in lines:
+            s = str(l).strip()
+            if s.startswith("</"):
+                d -= 1
+            elif s.startswith("<") and not s.endswith("/>"):
+                d += 1
+                mx = max(mx, d)
+        it["meta"]["nontrivial"] = len(lines) > 5 or mx >= 2      # out of reach of the feed machine's line bound
+        acc += o["o"]["r"] == "ok"
+        depths[mx] = depths.get(mx, 0) + 1
+    scenario.replay_all(chk, sc, outs, compare or compare_deep)
+    k = max(range(len(sc.items)), key=lambda i: (outs[i]["o"]["r"] == "ok", len(sc.items[i]["files"]["d/main.conf"])))
+    chk.sample({"deep_text": [str(l) for l in sc.items[k]["files"]["d/main.conf"]], "spec": outs[k]["o"]["r"]})
+    chk.note("deep", {"scenarios": len(sc.items), "accepted_by_spec": acc,
+                      "max_lines": max(len(it["files"]["d/main.conf"]) for it in sc.items),
+                      "by_nesting_depth": {str(k): v for k, v in sorted(depths.items())}})
+
+
 def run(chk):
     quick = chk.tier == "quick"
     docs = schemas.family(chk.seed, 12 if quick else 28)
@@ -83,6 +202,7 @@ def run(chk):
                 "types, closers) up to the line bound (thorough: four lines over the full vocabularies and five lines over "
                 "the first twelve lines of the twelve interaction schemas) whose proper prefixes are not yet rejected; all distinct; "
                 "non-trivial = at least one line")
+    deep(chk, docs, 36 if quick else 400, tree=False)
     if quick:
         explore(chk, docs, cap=20, maxlines=4, tree=False)
     else:
